@@ -362,7 +362,9 @@ class Union:
     _composite_kind = "union"
 
     def __init__(self, *types):
-        self.__args__ = self.types = types
+        self.__args__ = self.types = tuple(
+            normalize_type(t, None) for t in types
+        )
 
     def codegen(self):
         from .dependent import CodeGen, combine, generate_checking_code
@@ -420,7 +422,9 @@ class Intersection:
     _composite_kind = "intersection"
 
     def __init__(self, *types):
-        self.__args__ = self.types = types
+        self.__args__ = self.types = tuple(
+            normalize_type(t, None) for t in types
+        )
 
     def codegen(self):
         from .dependent import combine, generate_checking_code
